@@ -172,6 +172,53 @@ Theorem C17_nested_call_outcome_by_address_class : forall caddr hrp md v s a p, 
 Proof. exact probe_via_classes. Qed.
 Print Assumptions C17_nested_call_outcome_by_address_class.
 
+(* ---- execution context only.  A node serves, between and during consensus operations, requests that never reach
+        consensus: calls (eth_call / estimate / trace, CheckTx, simulations) evaluated on ANY committed version of
+        the state in any mode by any kind of caller, and simulations of whole operations — deployments included — on
+        a dropped branch ([hop], [hrun]).  Whatever requests were served during a life [l1]: the node (all its
+        versions) is the one the consensus operations alone produce, and everything that happens afterwards —
+        consensus outcomes, answers, simulation reports — is the same as if none had been served. *)
+Theorem C17_node_traffic_erasable : forall caddr hrp old s l1 l2,
+  let n1 := fst (hrun caddr hrp old s l1) in
+  let n1' := fst (hrun caddr hrp old s (map HOp (erase l1))) in
+  n1 = n1' /\
+  snd (hrun caddr hrp old s (l1 ++ l2)) = snd (hrun caddr hrp old s l1) ++ snd (hrun caddr hrp (fst n1') (snd n1') l2).
+Proof. exact traffic_erasable. Qed.
+Print Assumptions C17_node_traffic_erasable.
+
+(* the consensus state and the consensus outcomes of a life are those of its operations run alone *)
+Theorem C17_consensus_ignores_traffic : forall caddr hrp l old s,
+  snd (fst (hrun caddr hrp old s l)) = fst (run caddr s (erase l)) /\
+  consensus_outs (snd (hrun caddr hrp old s l)) = map snd (snd (run caddr s (erase l))).
+Proof. exact hrun_consensus. Qed.
+Print Assumptions C17_consensus_ignores_traffic.
+
+(* the answer to the call at any position of any life is a function of the version it names among the versions the
+   consensus operations before it produced: no request served earlier (a call on an older or newer version, a
+   simulated deployment) has any influence on it *)
+Theorem C17_answer_depends_on_named_version_only : forall caddr hrp old s l1 k md v a p l2,
+  let n1 := fst (hrun caddr hrp old s (map HOp (erase l1))) in
+  nth_error (snd (hrun caddr hrp old s (l1 ++ HReq (NCall k md v a p) :: l2))) (length l1)
+  = Some (OAns (answer_at hrp (versions (fst n1) (snd n1)) k md v a p)).
+Proof. exact answer_by_version. Qed.
+Print Assumptions C17_answer_depends_on_named_version_only.
+
+(* and it is decided by THAT version's registry: for a node that started from a reachable state and executed messages,
+   a call on version k — in every mode, made by the transaction, by a forwarding contract or by the constructor of a
+   creation message — finds nothing at an unregistered address, the contract's own answer at a registered enabled one,
+   a failed call at a disabled one *)
+Theorem C17_historic_call_outcome_by_address_class : forall caddr hrp old s l k md v a p r,
+  Forall (reachable caddr) old -> reachable caddr s -> Forall msg_op (erase l) -> std_precompile a = false ->
+  let n := fst (hrun caddr hrp old s l) in
+  answer_at hrp (versions (fst n) (snd n)) k md v a p = Some r ->
+  exists sk, nth_error (versions (fst n) (snd n)) k = Some sk /\
+    match lookup (metas sk) a with
+    | None => r = POkEmpty
+    | Some m => r = if m_disabled m then match v with Direct => PFail | _ => PRevert end else probe_custom hrp m p
+    end.
+Proof. exact historic_call_classes. Qed.
+Print Assumptions C17_historic_call_outcome_by_address_class.
+
 (* the protocol version of a running chain is the latest one *)
 Theorem C17_reachable_version : forall caddr s, reachable caddr s -> p_version (prm s) = LATEST_VERSION.
 Proof. exact reachable_version. Qed.
@@ -243,4 +290,28 @@ Example C17_example_keeper_api_outside :
 Proof.
   eexists. split; [vm_compute; reflexivity|]. cbv zeta. split; [vm_compute; reflexivity|].
   intros [m [L [_ [sy [de Y]]]]]. vm_compute in L. inversion L; subst m. discriminate.
+Qed.
+
+(* a node's life around a deployment: a call on the version BEFORE it finds nothing at 5001 (asked before and after a
+   call on the new version, and after a simulated second deployment), a call on the version after it gets the
+   contract's name; the simulated deployment reports success for the address 5002 and leaves nothing there *)
+Example C17_example_node_life :
+  exists s0, init_genesis ex_caddr (empty_state 0 ex_sup) ex_gen = Some s0 /\
+    let l := [ HReq (NCall 0 Query Direct 5001 PrName);
+               HOp (MDeployErc20 true true true 900 21 22 6 78);
+               HReq (NCall 0 Query ViaInitCall 5001 PrName);
+               HReq (NCall 1 Deliver ViaInitStaticCall 5001 PrName);
+               HReq (NCall 0 Check Direct 5001 PrName);
+               HReq (NSimulate (MDeployErc20 true true true 900 31 32 6 77));
+               HReq (NSimulate (ESupply 79 10));
+               HOp (ESupply 79 10);
+               HReq (NSimulate (MDeployErc20 true true true 900 31 32 6 79));
+               HReq (NCall 2 Deliver Direct 5002 PrName);
+               HReq (NCall 7 Query Direct 5001 PrName) ] in
+    Forall msg_op (erase l) /\
+    snd (hrun ex_caddr 99 [] s0 l) =
+      [ OAns (Some POkEmpty); OOp (ROk 5001); OAns (Some POkEmpty); OAns (Some (POkStr 21)); OAns (Some POkEmpty);
+        OSim RErr; OSim (ROk 0); OOp (ROk 0); OSim (ROk 5002); OAns (Some POkEmpty); OAns None ].
+Proof.
+  eexists. split; [vm_compute; reflexivity|]. cbv zeta. split; [repeat constructor|vm_compute; reflexivity].
 Qed.
